@@ -109,6 +109,12 @@ class _File:
             raise _PyRaise(FileNotFoundError(filename))
         self.disk.files[self.name] = ("zip", {arcname: src[1]})
 
+    def namelist(self):
+        arc = self.disk.files.get(self.name)
+        if arc is None or arc[0] != "zip":
+            raise _PyRaise(_zipfile.BadZipFile("File is not a zip file"))
+        return list(arc[1])
+
     def open(self, member, mode="r"):
         self.disk.fault("zip open member")
         arc = self.disk.files.get(self.name)
@@ -396,3 +402,14 @@ def bounded_real(rng, tier):
     finally:
         shutil.rmtree(root, ignore_errors=True)
     return {"evaluations": evals, "distinct_nontrivial": len(distinct), "failures": failures[:5], "samples": samples}
+
+
+@theorem(P, "renamed-zip-archive")
+def thm_renamed_zip():
+    disk = _new_disk(faults=False)
+    with U.compress("/data/0359-0540.csv.zip") as tmp:
+        disk.files[tmp] = ("plain", "DATA")
+    disk.files["/moved/035900-0540.csv.zip"] = disk.files.pop("/data/0359-0540.csv.zip")        # what FileSet.move / copy does
+    with U.decompress("/moved/035900-0540.csv.zip") as plain:
+        ensures(disk.files.get(plain) == ("plain", "DATA"), id="a renamed zip archive still decompresses to the identical bytes")
+    ensures(sorted(disk.files) == ["/moved/035900-0540.csv.zip"], id="... and nothing is left behind")
